@@ -42,7 +42,12 @@ OBLIGATIONS = {
 }
 BOUND = {"quick": "small curve d<=2; secp256k1 d<=1", "thorough": "small curve d<=3; secp256k1 d<=2"}
 AMOUNTS = ["50.00000000", "0.00001000", "0.10000000", "0.29000000", "1.10000000", "2.30000000", "0.07000000", "20999999.97690000",
-           "0.00000001", "0.30000001", "0.00002000", "8.99999999"]
+           "0.00000001", "0.30000001", "0.00002000", "8.99999999",
+           # indices 12..20: three triples (positions p, p+3, p+6) of multi-million-BTC amounts whose FLOAT sum, converted once,
+           # differs by a satoshi from the sum of the per-output conversions (found by enumeration with exact arithmetic)
+           "8927035.07310554", "6999999.99999999", "7000000.00000001",
+           "8990592.12572571", "6999999.99999997", "6999999.99999993",
+           "1590077.41308664", "6999999.99999995", "6999999.99999999"]
 SENDERS = ["p2pkh-c", "p2pkh-u", "p2pk", "multisig", "p2sh", "p2wpkh", "p2wsh", "p2sh-p2wpkh", "p2sh-p2wsh"]
 RECIPS = ["p2pkh", "pubkey", "p2sh", "v0-20", "v0-32", "v1-32", "raw", "self"]
 FLAGS = [0x01, 0x02, 0x03, 0x81, 0x82, 0x83]
@@ -356,6 +361,10 @@ def run_job(job):
             else:
                 D["mn"] = [[1, 1]]
             yield from deviations(D, job["d"])
+        # full product over the float-unfriendly amount triples (3 outputs, all spent, with change)
+        base_a = next(iter(deviations(dict(dims(tier), sender=["p2pkh-c"], mn=[[1, 1]]), 0)))
+        for amt, snd, frac, nu in itertools.product((12, 13, 14), ("p2pkh-c", "p2wpkh", "p2sh-p2wpkh"), (0.999, 0.9999999, 0.5), (3,)):
+            yield dict(base_a, amt=amt, sender=snd, fraction=frac, n_utxo=nu, mn=[1, 1])
     for i, a in enumerate(gen()):
         if i % nsh != sh:
             continue
